@@ -183,3 +183,104 @@ func H_c02_emph() {
 }
 
 func init() { reg("H_c02_emph", H_c02_emph) }
+
+// ---------------------------------------------------------------------------------------------
+// C02 part C': code spans (CommonMark 6.1) against a reference written from the specification:
+// a backtick string of length L opens a code span closed by the next backtick string of exactly
+// length L; line endings inside become spaces; one leading and one trailing space are stripped when
+// both are there and the content is not all spaces; an unmatched backtick string is literal.
+// One paragraph over {`, space, LF, a-z}; every byte symbolic.
+// ---------------------------------------------------------------------------------------------
+
+func c02codespans(s []byte) []byte {
+	var out []byte
+	n := len(s)
+	for i := 0; i < n; {
+		if s[i] != '`' {
+			out = append(out, s[i])
+			i++
+			continue
+		}
+		j := i
+		for j < n && s[j] == '`' {
+			j++
+		}
+		L := j - i
+		found := -1
+		for k := j; k < n; {
+			if s[k] != '`' {
+				k++
+				continue
+			}
+			m := k
+			for m < n && s[m] == '`' {
+				m++
+			}
+			if m-k == L {
+				found = k
+				break
+			}
+			k = m
+		}
+		if found < 0 {
+			for k := 0; k < L; k++ {
+				out = append(out, '`')
+			}
+			i = j
+			continue
+		}
+		content := append([]byte(nil), s[j:found]...)
+		allSpace := true
+		for k := range content {
+			if content[k] == '\n' {
+				content[k] = ' '
+			}
+			if content[k] != ' ' {
+				allSpace = false
+			}
+		}
+		if len(content) >= 2 && content[0] == ' ' && content[len(content)-1] == ' ' && !allSpace {
+			content = content[1 : len(content)-1]
+		}
+		out = append(append(append(out, "<code>"...), content...), "</code>"...)
+		i = found + L
+	}
+	return out
+}
+
+func H_c02_codespan() {
+	m := WarmMD("core||unsafe,xhtml")
+	n := vp.ParamInt("n", 5)
+	s := vp.Bytes("c", n)
+	for i := range s {
+		vp.Assume(vp.Or(vp.InSet(s[i], "` \n"), vp.InRange(s[i], 'a', 'z')))
+	}
+	alphabetAssume(s)
+	// one paragraph: starts and ends with a letter or a backtick, no blank line, no line starting or ending with a
+	// space (leading spaces are stripped and trailing ones are hard breaks - both outside this reference), no line
+	// starting with three backticks (a fence)
+	vp.Assume(vp.Not(vp.InSet(s[0], " \n")))
+	vp.Assume(vp.Not(vp.InSet(s[n-1], " \n")))
+	for i := 0; i+1 < n; i++ {
+		vp.Assume(vp.Not(vp.And(s[i] == '\n', vp.InSet(s[i+1], " \n"))))
+		vp.Assume(vp.Not(vp.And(s[i] == ' ', s[i+1] == '\n')))
+	}
+	for i := 0; i+2 < n; i++ {
+		if i == 0 {
+			vp.Assume(vp.Not(vp.And(s[0] == '`', vp.And(s[1] == '`', s[2] == '`'))))
+		} else {
+			vp.Assume(vp.Not(vp.And(s[i-1] == '\n', vp.And(s[i] == '`', vp.And(s[i+1] == '`', s[i+2] == '`')))))
+		}
+	}
+	vp.Observe("src", s)
+	want := append(append([]byte("<p>"), c02codespans(s)...), "</p>\n"...)
+	vp.Observe("want", want)
+	var o bytes.Buffer
+	e := m.Convert(s, &o)
+	vp.Assert(e == nil, "conversion returned an error")
+	vp.Observe("got", o.Bytes())
+	vp.Assert(vp.EqBytes(o.Bytes(), want), "code span: rendering differs from CommonMark 6.1")
+	vp.Reach("done")
+}
+
+func init() { reg("H_c02_codespan", H_c02_codespan) }
